@@ -188,7 +188,7 @@ def show(t, names=None) -> str:
     if k == "join":
         return "JOIN{" + " | ".join(show(x, names) for x in t[1]) + "}"
     if k == "phi":
-        return f"PHI<{show(t[3], names)}>"
+        return f"PHI:{t[4] if len(t) > 4 else ''}<{show(t[3], names)}>"
     if k == "iter":
         return f"ITER({show(t[1], names)})" + ("" if t[2] is None else f"[{t[2]}]")
     if k == "self":
@@ -197,7 +197,8 @@ def show(t, names=None) -> str:
         return f"{t[1]}<{show(t[2], names)}>" if t[2] is not None else t[1]
     if k == "read":
         site = f"#{t[4][2]}" if len(t) > 4 and t[4] else ""
-        return f"READ{site}({t[1]}{'' if t[2] == C(1) else '[' + show(t[2], names) + ']'} from {show(t[3], names)})"
+        tn = t[1] if isinstance(t[1], str) else show(t[1], names)
+        return f"READ{site}({tn}{'' if t[2] == C(1) else '[' + show(t[2], names) + ']'} from {show(t[3], names)})"
     if k == "member":
         return f"{show(t[1], names)}+{t[2]}"
     if k == "arrtype":
@@ -273,6 +274,8 @@ def children(t):
         if t[2] is not None:
             yield t[2]
     elif k == "read":
+        if isinstance(t[1], tuple):
+            yield t[1]
         yield t[2]
         yield t[3]
 
@@ -347,13 +350,13 @@ def subst(t, mapping):
     if k == "slice":
         return ("slice", r(t[1]), r(t[2]))
     if k == "phi":
-        return ("phi", t[1], t[2], r(t[3]))
+        return ("phi", t[1], t[2], r(t[3])) + tuple(t[4:])
     if k == "iter":
         return ("iter", r(t[1]), t[2])
     if k == "inst":
         return ("inst", t[1], r(t[2]) if t[2] is not None else None) + tuple(t[3:])
     if k == "read":
-        return ("read", t[1], r(t[2]), r(t[3])) + tuple(t[4:])
+        return ("read", r(t[1]) if isinstance(t[1], tuple) else t[1], r(t[2]), r(t[3])) + tuple(t[4:])
     return t
 
 
@@ -508,11 +511,21 @@ def ev(t, val: Valuation):
             return vals[0]
         return _h("join", tuple(sorted(repr(_key(v)) for v in vals)))
     if k == "call":
+        if t[1] in _MODELS:
+            try:
+                return _MODELS[t[1]](*[ev(x, val) for x in t[2]])
+            except EvalError:
+                raise
+            except Exception:
+                pass
         args = tuple(_key(ev(x, val)) for x in t[2])
         kws = tuple((a, _key(ev(v, val))) for a, v in t[3])
         return _h("call", t[1], args, kws)
     if k == "attr":
-        return _h("attr", _key(ev(t[1], val)), t[2])
+        b = ev(t[1], val)
+        if isinstance(b, _CInt) and t[2] == "value":
+            return b.value
+        return _h("attr", _key(b), t[2])
     if k == "sub":
         b, i = ev(t[1], val), ev(t[2], val)
         if isinstance(b, (tuple, bytes, str)) and isinstance(i, int):
@@ -526,7 +539,7 @@ def ev(t, val: Valuation):
     if k == "iter":
         return _h("iter", _key(ev(t[1], val)), t[2])
     if k == "read":
-        return _h("read", t[1], _key(ev(t[2], val)), _key(ev(t[3], val)), t[4:] and t[4])
+        return _h("read", repr(_key(ev(t[1], val))) if isinstance(t[1], tuple) else t[1], _key(ev(t[2], val)), _key(ev(t[3], val)), t[4:] and t[4])
     if k in ("type", "func", "cls", "mod"):
         return _h(k, t[1])
     if k == "site":
@@ -536,6 +549,25 @@ def ev(t, val: Valuation):
     if k == "arrtype":
         return _h(k, repr(t[1]), _key(ev(t[2], val)))
     raise EvalError(f"cannot evaluate {k}")
+
+
+class _CInt:
+    def __init__(self, v, bits, signed):
+        v &= (1 << bits) - 1
+        if signed and v >= 1 << (bits - 1):
+            v -= 1 << bits
+        self.value = v
+
+    def __repr__(self):
+        return f"cint({self.value})"
+
+
+_MODELS = {
+    "ext:ctypes.c_int64": lambda x: _CInt(x, 64, True), "ext:ctypes.c_uint64": lambda x: _CInt(x, 64, False),
+    "ext:ctypes.c_int32": lambda x: _CInt(x, 32, True), "ext:ctypes.c_uint32": lambda x: _CInt(x, 32, False),
+    "ext:ctypes.c_int16": lambda x: _CInt(x, 16, True), "ext:ctypes.c_uint16": lambda x: _CInt(x, 16, False),
+    "len": lambda x: len(x), "int": lambda x: int(x), "bool": lambda x: bool(x), "abs": lambda x: abs(x),
+}
 
 
 def _key(v):
@@ -559,15 +591,15 @@ class EqResult:
         self.skipped = skipped
 
 
-def equiv(a, b, domain=None, n=160, seed=0) -> EqResult:
-    """Decide a == b for all valuations (restricted to `domain`)."""
+def equiv(a, b, domain=None, n=160, seed=0, override=None, fields=None) -> EqResult:
+    """Decide a == b for all valuations (restricted to `domain`, with optional fixed overrides = a scenario)."""
     if a == b:
         return EqResult(True, "syntactic")
     tried = skipped = 0
     for i in range(n * 4):
         if tried >= n:
             break
-        val = Valuation(seed * 100003 + i, domain=domain)
+        val = Valuation(seed * 100003 + i, domain=domain, override=override, fields=fields)
         try:
             va = ev(a, val)
             vb = ev(b, val)
